@@ -65,6 +65,7 @@ type interpreter struct {
 	callDepth          int
 	fresh              int
 	goInlined          bool
+	pendingGo          []func()
 	sh2                *worklist
 	harness            string
 	mode               InputMode
@@ -420,10 +421,21 @@ func visitInstr(fr *frame, instr ssa.Instruction) continuation {
 		// recorded as an assumption of the run).
 		fn, args := prepareCall(fr, &instr.Call)
 		i.goInlined = true
+		if i.cfg.GoDeferred {
+			// deferred sequentialisation: the goroutine runs to completion at the next
+			// WaitGroup.Wait (or at the end of the entry); channels are buffered.
+			pos := instr.Pos()
+			i.pendingGo = append(i.pendingGo, func() { call(i, nil, pos, fn, args) })
+			break
+		}
 		call(fr.i, nil, instr.Pos(), fn, args)
 
 	case *ssa.MakeChan:
-		fr.env[instr] = make(chan value, i.concInt(fr.get(instr.Size)))
+		sz := i.concInt(fr.get(instr.Size))
+		if i.cfg.GoDeferred && sz < 4096 {
+			sz = 4096
+		}
+		fr.env[instr] = make(chan value, sz)
 
 	case *ssa.Alloc:
 		var addr *value
@@ -589,6 +601,15 @@ func visitInstr(fr *frame, instr ssa.Instruction) continuation {
 }
 
 // doSelect supports only the non-blocking / ready cases deterministically.
+// runPendingGo runs the goroutines queued under deferred sequentialisation, in spawn order.
+func (i *interpreter) runPendingGo() {
+	for len(i.pendingGo) > 0 {
+		g := i.pendingGo[0]
+		i.pendingGo = i.pendingGo[1:]
+		g()
+	}
+}
+
 func (i *interpreter) doSelect(fr *frame, instr *ssa.Select) value {
 	chosen := -1
 	var recv value
